@@ -82,8 +82,9 @@ def run(ctx):
             for api in ("ddp", "parse"):
                 cases.append({"s": s, "kw": dict(kw), "settings": st, "api": api, "probe": False, "valid": True})
         for inv in INVALID_SETTINGS:
-            for _ in range(6 if ctx.quick() else 60):
-                s = rng.choice([gen_string(rng), "2015-03-05", "yesterday", "", "1500000000"])
+            for _ in range(3 if ctx.quick() else 40):
+                # strings that reach each consumer of the setting (numeric date, missing day, missing month, relative, epoch)
+                s = rng.choice([gen_string(rng), "2015-03-05", "10/11/12", "March 2015", "2014", "Monday", "yesterday", "", "1500000000"])
                 kw = {"languages": ["en"]} if rng.random() < 0.6 else {}
                 if rng.random() < 0.3:
                     kw["date_formats"] = ["%Y-%m-%d"]
